@@ -195,7 +195,7 @@ class CDSInterval(AbstractFeatureInterval):
         return dict(
             cds_starts=cds_starts,
             cds_ends=cds_ends,
-            strand=self.strand.name,
+            strand=(self.strand if chromosome_relative_coordinates else self.chunk_relative_strand).name,
             cds_frames=cds_frames,
             qualifiers=self._export_qualifiers_to_list(),
             sequence_name=self.sequence_name,
@@ -383,7 +383,7 @@ class CDSInterval(AbstractFeatureInterval):
                 start + 1,
                 end,
                 NULL_COLUMN,
-                self.strand,
+                self.strand if chromosome_relative_coordinates else self.chunk_relative_strand,
                 frame.to_phase(),
                 attributes,
             )
